@@ -72,6 +72,20 @@ def generate(seed, index, tier):
                     sent["attrs"]["stroke-width"] = "2%"
                 i = parent["kids"].index(e)
                 parent["kids"].insert(i + 1, sent)
+    # a colour fault that is a near-spelling of a colour a LATER sibling states well-formed, with digits unique to
+    # this run (so that this process never saw the good spelling before the bad one)
+    for f in case["faults"]:
+        if f["kind"] == "colour" and f["attr"] in ("fill", "stroke") and ch.coin(0.5):
+            H = "%06x" % ((seed >> 8) & 0xFFFFFF)
+            for e, parent in list(gd.walk_with_parent(doc)):
+                if parent is not None and e["n"] == f["n"]:
+                    bad = "#" + H[:2] + ch.choice([" ", "  "]) + H[2:]
+                    e["attrs"][f["attr"]] = bad
+                    f["value"] = bad
+                    nmax = max(x["n"] for x in gd.walk(doc)) + 1
+                    sib = {"tag": "rect", "attrs": {"x": "1", "y": "2", "width": "30", "height": "20", "style": "%s:#%s" % (f["attr"], H), "data-n": str(nmax)}, "kids": [], "text": None, "n": nmax}
+                    parent["kids"].insert(parent["kids"].index(e) + 1, sib)
+            break
     case["doc"] = doc
     case["bias"] = bias
     case["delivery"] = _delivery(ch)
@@ -98,6 +112,7 @@ def generate(seed, index, tier):
         pdoc["kids"].insert(0, {"tag": "style", "attrs": {"data-n": "9001"}, "kids": [], "text": "rect { fill: #0a0b0c; stroke: lime } .c1 { stroke-width: 7 } #e1 { fill: orange } * { stroke-opacity: 0.3 }", "n": 9001})
         case["poison"] = gd.serialise(pdoc)
     case["steps"] = bool(index % 4 == 1)
+    case["reference_first"] = bool((index // 4) % 2)
     return case
 
 
@@ -107,6 +122,11 @@ def generate(seed, index, tier):
 
 
 def deliver_and_parse(se, xml, delivery, out, counter, **kw):
+    """(se may be the long-lived module or a pristine instance of it)"""
+    return _deliver_and_parse(se, xml, delivery, out, counter, **kw)
+
+
+def _deliver_and_parse(se, xml, delivery, out, counter, **kw):
     """Hand the document to SVG.parse the way the schedule says."""
     mode = delivery["mode"]
     sizes = delivery["sizes"]
@@ -172,6 +192,21 @@ def execute(case, se, out, trace):
     trace.ev("doc", xml)
     f0 = faults[0] if len(faults) == 1 else ({"tag": "multi", "attr": "multi", "kind": "+".join(sorted(set(f["kind"] for f in faults)))} if faults else {"tag": "-", "attr": "-", "kind": "none"})
     counter = {}
+    offending = {f["n"] for f in faults}
+    pre_ref = None
+    # the reference (document without the offending elements) is parsed by a pristine instance of the library:
+    # what the long-lived instance has kept from this or earlier documents cannot leak into it
+    se_ref = core.fresh_se()
+    if case.get("reference_first") and faults and doc["n"] not in offending:
+        # the schedule decides which of the two documents the process sees first
+        try:
+            pre_ref = deliver_and_parse(se_ref, gd.serialise(gd.remove_elements(doc, offending)), case["delivery_ref"], out, {}, **case.get("opts", {}))
+            pre_ref = ("ok", pre_ref)
+            out.count("probe:reference-parsed-first")
+        except Exception as e:
+            if core.is_harness_exc(e):
+                raise
+            pre_ref = ("raised", e)
     # ---- 1+2: the damaged document must parse
     budget = None
     if case.get("steps"):
@@ -202,33 +237,82 @@ def execute(case, se, out, trace):
         raise V("no-raise", [type(exc).__name__, core.exc_sig(exc)[1], f0["tag"], f0["attr"], f0["kind"]], "SVG.parse raised %r for fault(s) %s" % (exc, _fdesc(faults)))
     trace.ev("parsed", type(svg).__name__)
     # ---- 3: isolation
-    offending = {f["n"] for f in faults}
     root_n = doc["n"]
     if root_n in offending:
         out.count("probe:fault-on-root")
         return
     ref_doc = gd.remove_elements(doc, offending)
     xml_ref = gd.serialise(ref_doc)
-    try:
-        svg_ref = deliver_and_parse(se, xml_ref, case["delivery_ref"], out, {}, **case.get("opts", {}))
-    except Exception as e:
-        if core.is_harness_exc(e):
-            raise
-        out.count("skip:reference-raises")
-        trace.ev("ref-raises", type(e).__name__)
-        return
-    E = {str(n) for n in gd.exempt_set(doc, offending)}
-    R = [r for r in ob.observe_doc(se, svg) if r["n"] not in E]
-    Rr = [r for r in ob.observe_doc(se, svg_ref) if r["n"] not in E]
+    if pre_ref is not None:
+        if pre_ref[0] == "raised":
+            out.count("skip:reference-raises")
+            return
+        svg_ref = pre_ref[1]
+    else:
+        try:
+            svg_ref = deliver_and_parse(se_ref, xml_ref, case["delivery_ref"], out, {}, **case.get("opts", {}))
+        except Exception as e:
+            if core.is_harness_exc(e):
+                raise
+            out.count("skip:reference-raises")
+            trace.ev("ref-raises", type(e).__name__)
+            return
+    # positional exemption: in the returned tree, every node that is an instance of an offending element or of
+    # one of its source descendants is left out together with everything under it (the offender's subtree,
+    # including whatever a use inside it instantiates); every other instance of every element is compared
+    E = {str(n) for n in gd.offending_subtrees(doc, offending)}
+    R = ob.observe_doc(se, svg, skip_ns=E)
+    Rr = ob.observe_doc(se_ref, svg_ref, skip_ns=E)
     trace.ev("observed", len(R), len(Rr))
     if any(r["n"] is None for r in R + Rr):
         out.count("probe:instance-without-serial")
-    if [r["n"] for r in R] != [r["n"] for r in Rr]:
-        raise V("isolation", ["sequence", f0["tag"], f0["attr"], f0["kind"]], "elements outside the offending subtree differ in number/order: %s vs %s without the offending element(s); faults %s" % ([r["n"] for r in R], [r["n"] for r in Rr], _fdesc(faults)))
-    for a, b in zip(R, Rr):
-        ok, msg = ob.records_equal(a, b, rel=1e-9)
-        if not ok:
-            raise V("isolation", [msg.split(" ")[0].rstrip(":"), f0["tag"], f0["attr"], f0["kind"]], "element data-n=%s (%s) differs from the parse without the offending element(s): %s; faults %s" % (a["n"], a["cls"], msg, _fdesc(faults)))
+    # An offending use whose own construction fails leaves no node to hang its content on: the library may still
+    # render that content ("rendered up to the error") next to where the use stood. Such extra instances - of
+    # elements the offending uses reference - are tolerated; nothing may be missing, and every other instance
+    # must be equal.
+    T = {str(n) for n in gd.referenced_by(doc, offending)}
+    eq_cache = {}
+
+    def same(i, j):
+        k = (i, j)
+        if k not in eq_cache:
+            eq_cache[k] = R[i]["n"] == Rr[j]["n"] and ob.records_equal(R[i], Rr[j], rel=1e-9)[0]
+        return eq_cache[k]
+
+    import functools
+
+    @functools.lru_cache(maxsize=None)
+    def align(i, j):
+        if j == len(Rr):
+            return all(R[x]["n"] in T for x in range(i, len(R)))
+        if i == len(R):
+            return False
+        if same(i, j) and align(i + 1, j + 1):
+            return True
+        return R[i]["n"] in T and align(i + 1, j)
+
+    if len(R) * max(1, len(Rr)) > 40000:
+        out.count("skip:isolation-too-large")
+        return
+    if not align(0, 0):
+        # report the first difference of a plain left-to-right comparison
+        i = j = 0
+        while i < len(R) and j < len(Rr):
+            if R[i]["n"] == Rr[j]["n"]:
+                ok, msg = ob.records_equal(R[i], Rr[j], rel=1e-9)
+                if not ok and R[i]["n"] not in T:
+                    raise V("isolation", [msg.split(" ")[0].rstrip(":"), f0["tag"], f0["attr"], f0["kind"]], "element data-n=%s (%s) differs from the parse without the offending element(s): %s; faults %s" % (R[i]["n"], R[i]["cls"], msg, _fdesc(faults)))
+                if ok:
+                    i += 1
+                    j += 1
+                    continue
+            if R[i]["n"] in T:
+                i += 1
+                continue
+            break
+        raise V("isolation", ["sequence", f0["tag"], f0["attr"], f0["kind"]], "elements outside the offending subtree differ in number/order (or an instance differs): %s vs %s without the offending element(s); faults %s" % ([r["n"] for r in R], [r["n"] for r in Rr], _fdesc(faults)))
+    if len(R) != len(Rr):
+        out.count("probe:extra-instances-of-failed-use-tolerated")
     if case.get("poison"):
         first = ob.observe_doc(se, svg)
         try:
@@ -253,7 +337,7 @@ def execute(case, se, out, trace):
     out.count("probe:isolation-compared", 1)
     out.count("probe:elements-compared", len(R))
     if E - {str(n) for n in offending}:
-        out.count("probe:exempt-set-larger-than-fault")
+        out.count("probe:offender-has-descendants")
 
 
 def _fdesc(faults):
